@@ -46,8 +46,10 @@ def run(tier):
     unreachable_marked = 0
     unused_checked = 0
     unused_msg = langcheck.info()["semantic"]["unused-assignment"]
-    families = ("GenCapCases", "GenLoopCases")
-    for module, env in profiles(tier) + [(f, {}) for f in families]:
+    families = ("GenCapCases", "GenLoopCases", "GenDyn")
+    # GenDyn with DEAD=1: every cell of the site x type x route table as the initialiser of a variable nobody reads -
+    # a run-time failure must not disappear with the dead store
+    for module, env in profiles(tier) + [("GenCapCases", {}), ("GenLoopCases", {}), ("GenDyn", {"DEAD": "1"})]:
         r = le.generate(module, env=env, timeout=2400, cfg="lang/%s.cfg" % module if module in families else "lang/MCGen.cfg",
                         coverage=module not in families)
         tally.add_tlc(module, r)
